@@ -38,6 +38,24 @@ def cached_dbeta(nx, xx):
     dbeta1, dbeta2 = _dbeta_cache[key]
     return dbeta1, dbeta2
 
+def _inbreeding_factor(ii, n, xx, F, ploidy):
+    """
+    Probability of sampling ii derived alleles among n chromosomes (n/ploidy
+    individuals) at each allele frequency in xx, with inbreeding coefficient F.
+
+    F = 0 is random mating, i.e. binomial sampling. (The beta-binomial
+    parameters used for F > 0 diverge as F -> 0.)
+    """
+    if F == 0:
+        return comb(n,ii) * xx**ii * (1-xx)**(n-ii)
+    nInd = n/ploidy
+    alpha = xx*((1.0-F)/F)
+    alpha[0],alpha[-1] = 1.0e-20*((1.0-F)/F), (1.0-1.0e-20)*((1.0-F)/F)
+    beta = (1.0-xx)*((1.0-F)/F)
+    beta[0],beta[-1] = (1.0-1.0e-20)*((1.0-F)/F), 1.0e-20*((1.0-F)/F)
+    return numpy.array([BetaBinomConvolution(ii,nInd,alpha[j],beta[j],ploidy=ploidy)
+                        for j in range(0,len(xx))])
+
 _imported_demes = False
 
 class Spectrum(numpy.ma.masked_array):
@@ -1294,12 +1312,8 @@ class Spectrum(numpy.ma.masked_array):
             raise ValueError('Number of chromosomes {0} is not divisible '
                              'by ploidy {1}.'.format(str(n),str(ploidyx)))
         data = numpy.zeros(n+1)
-        alphax = xx*((1.0-Fx)/Fx)
-        alphax[0],alphax[-1] = 1.0e-20*((1.0-Fx)/Fx), (1.0-1.0e-20)*((1.0-Fx)/Fx)
-        betax  = (1.0-xx)*((1.0-Fx)/Fx)
-        betax[0],betax[-1] = (1.0-1.0e-20)*((1.0-Fx)/Fx), 1.0e-20*((1.0-Fx)/Fx)
         for ii in range(0,n+1):
-            factorx = [BetaBinomConvolution(ii,nInd,alphax[j],betax[j],ploidy=ploidyx) for j in range(0,len(xx))]
+            factorx = _inbreeding_factor(ii, n, xx, Fx, ploidyx)
             if het_ascertained == 'xx':
                 factorx *= xx*(1-xx)
             data[ii] = trapz(factorx*phi,xx)
@@ -1405,25 +1419,17 @@ class Spectrum(numpy.ma.masked_array):
                              'by ploidy {1} for pop 2.'.format(str(ny),str(ploidyy)))
         
         data = numpy.zeros((nx+1, ny+1))
-        alphax = xx*((1.0-Fx)/Fx)
-        alphax[0],alphax[-1] = 1.0e-20*((1.0-Fx)/Fx), (1.0-1.0e-20)*((1.0-Fx)/Fx)
-        betax = (1.0-xx)*((1.0-Fx)/Fx)
-        betax[0],betax[-1] = (1.0-1.0e-20)*((1.0-Fx)/Fx), 1.0e-20*((1.0-Fx)/Fx)
-        alphay = yy*((1.0-Fy)/Fy)
-        alphay[0],alphay[-1] = 1.0e-20*((1.0-Fy)/Fy), (1.0-1.0e-20)*((1.0-Fy)/Fy)
-        betay = (1.0-yy)*((1.0-Fy)/Fy)
-        betay[0],betay[-1] = (1.0-1.0e-20)*((1.0-Fy)/Fy), 1.0e-20*((1.0-Fy)/Fy)
         # Cache to avoid duplicated work
         factorx_cache = {}
         for ii in range(0,nx+1):
-            factorx = numpy.array([BetaBinomConvolution(ii,nIndx,alphax[j],betax[j],ploidy=ploidyx) for j in range(0,len(xx))])
+            factorx = _inbreeding_factor(ii, nx, xx, Fx, ploidyx)
             if het_ascertained == 'xx':
                 factorx *= xx*(1-xx)
             factorx_cache[nx,ii] = factorx
         
         dx,dy = numpy.diff(xx), numpy.diff(yy)
         for jj in range(0,ny+1):
-            factory = numpy.array([BetaBinomConvolution(jj,nIndy,alphay[j],betay[j],ploidy=ploidyy) for j in range(0,len(yy))])
+            factory = _inbreeding_factor(jj, ny, yy, Fy, ploidyy)
             if het_ascertained == 'yy':
                 factory *= yy*(1-yy)
             integrated_over_y = trapz(factory[numpy.newaxis,:]*phi, dx=dy)
@@ -1678,34 +1684,22 @@ class Spectrum(numpy.ma.masked_array):
         data = numpy.zeros((nx+1, ny+1, nz+1))
         dx, dy, dz = numpy.diff(xx), numpy.diff(yy), numpy.diff(zz)
         half_dx = dx/2.0
-        alphax = xx*((1.0-Fx)/Fx)
-        alphax[0],alphax[-1] = 1.0e-20*((1.0-Fx)/Fx), (1.0-1.0e-20)*((1.0-Fx)/Fx)
-        betax = (1.0-xx)*((1.0-Fx)/Fx)
-        betax[0],betax[-1] = (1.0-1.0e-20)*((1.0-Fx)/Fx), 1.0e-20*((1.0-Fx)/Fx)
-        alphay = yy*((1.0-Fy)/Fy)
-        alphay[0],alphay[-1] = 1.0e-20*((1.0-Fy)/Fy), (1.0-1.0e-20)*((1.0-Fy)/Fy)
-        betay = (1.0-yy)*((1.0-Fy)/Fy)
-        betay[0],betay[-1] = (1.0-1.0e-20)*((1.0-Fy)/Fy), 1.0e-20*((1.0-Fy)/Fy)
-        alphaz = zz*((1.0-Fz)/Fz)
-        alphaz[0],alphaz[-1] = 1.0e-20*((1.0-Fz)/Fz), (1.0-1.0e-20)*((1.0-Fz)/Fz)
-        betaz = (1.0-zz)*((1.0-Fz)/Fz)
-        betaz[0],betaz[-1] = (1.0-1.0e-20)*((1.0-Fz)/Fz), 1.0e-20*((1.0-Fz)/Fz)
         
         # We cache these calculations...
         factorx_cache, factory_cache = {}, {}
         for ii in range(0, nx+1):
-            factorx = numpy.array([BetaBinomConvolution(ii,nIndx,alphax[j],betax[j],ploidy=ploidyx) for j in range(0,len(xx))])
+            factorx = _inbreeding_factor(ii, nx, xx, Fx, ploidyx)
             if het_ascertained == 'xx':
                 factorx *= xx*(1-xx)
             factorx_cache[nx,ii] = factorx
         for jj in range(0, ny+1):
-            factory = numpy.array([BetaBinomConvolution(jj,nIndy,alphay[j],betay[j],ploidy=ploidyy) for j in range(0,len(yy))])
+            factory = _inbreeding_factor(jj, ny, yy, Fy, ploidyy)
             if het_ascertained == 'yy':
                 factory *= yy*(1-yy)
             factory_cache[ny,jj] = factory[nuax,:]
         
         for kk in range(0, nz+1):
-            factorz = numpy.array([BetaBinomConvolution(kk,nIndz,alphaz[j],betaz[j],ploidy=ploidyz) for j in range(0,len(zz))])
+            factorz = _inbreeding_factor(kk, nz, zz, Fz, ploidyz)
             if het_ascertained == 'zz':
                 factorz *= zz*(1-zz)
             over_z = trapz(factorz[nuax, nuax,:] * phi, dx=dz)
